@@ -1,7 +1,8 @@
 (* C12 model: pgmpy/estimators/PC.py (build_skeleton for orig/stable/parallel, skeleton_to_pdag),
    pgmpy/base/DAG.py PDAG.to_dag, CITests.independence_match over DAG.get_independencies — as
    coded in /repo now (after fix d85fe02: rule 2 tests non-adjacency both ways; after fix 6ec15dd: to_dag's
-   sink test counts a directed parent of an undirected neighbour as adjacent).
+   sink test counts a directed parent of an undirected neighbour as adjacent; after fix ad4d524: rule 4 requires
+   X, Y non-adjacent).
    Executable definitions only; no proofs here.
 
    Order parameters (Python set / dict / frozenset iteration, PYTHONHASHSEED):
@@ -182,10 +183,13 @@ Definition rule3_pass (vars : list node) (A : list arc) : list arc :=
                if harc A y x && harc A x y && has_path (dpart vars A) x y then rarc A y x else A)
             (npairs vars) A.
 
-(* 4) X - Z - Y, X -> W <- Y, Z - W: Z -> W   (no test that X and Y are non-adjacent, as coded) *)
+(* 4) X - Z - Y with X, Y non-adjacent, X -> W <- Y, Z - W: Z -> W   (Meek's rule 3; the non-adjacency test is
+   fix ad4d524) *)
 Definition rule4_pass (vars sord : list node) (A : list arc) : list arc :=
   fold_left (fun A (p : arc) =>
                let (x, y) := p in
+               if harc A x y || harc A y x then A
+               else
                fold_left (fun A z =>
                             fold_left (fun A w => rarc A w z)
                                       (filter (fun w => dchild A x w && dchild A y w && unbr A z w) vars) A)
